@@ -20,12 +20,17 @@ CFG = ('SPECIFICATION Spec\nCONSTANTS K = %d\n E = %d\n MaxIts = %d\n Variant = 
 
 
 def real_behaviour(inp, E, maxits, merge):
-    A, B, C, D = (complex(*inp[k]) for k in 'abcd')
+    # the lattice is blown up by S = 2^(E+1) (exact in floating point) so that the "longer length" handed over is >= 1: below 1 the library scales its absolute
+    # tolerances down with the curves (fix for tiny curves), which is outside the regime Subdiv.tla describes; the behaviour on the blown-up lattice is that of the
+    # model's unit lattice with tol_deC = 4^-E, tol = tol_deC
+    S = 2.0 ** (E + 1)
+    A, B, C, D = (complex(*inp[k]) * S for k in 'abcd')
     bez1 = [A, (A + B) / 2, B]
     bez2 = [C, (C + D) / 2, D]
-    tol_dec = 4.0 ** -E
-    tol = tol_dec if merge == 'same' else 2.0 ** -60
+    tol_dec = 4.0 ** -E * S * S
+    tol = 4.0 ** -E * S if merge == 'same' else 2.0 ** -60
     longer = tol_dec * 2 ** (maxits - 1.5)          # maxits = ceil(1 - log2(tol_deC / longer_length)) = maxits
+    assert longer >= 1
     calls, visits = [], []
     o_bb, o_bi = bz.bezier_bounding_box, bz.boxes_intersect
 
@@ -65,9 +70,11 @@ def compare(ck, case, E, maxits, merge):
     except Exception as e:      # noqa
         # the recorder rides on bezier_bounding_box / boxes_intersect being called once per visited pair: if the function no longer works that way the recorder may
         # fail although the function itself is fine - only an exception of the *uninstrumented* call on this legal input is the library's
-        A, B, C, D = (complex(*inp[k]) for k in 'abcd')
+        S = 2.0 ** (E + 1)
+        A, B, C, D = (complex(*inp[k]) * S for k in 'abcd')
         try:
-            bz.bezier_intersections([A, (A + B) / 2, B], [C, (C + D) / 2, D], 4.0 ** -E * 2 ** (maxits - 1.5), tol=4.0 ** -E if merge == 'same' else 2.0 ** -60, tol_deC=4.0 ** -E)
+            bz.bezier_intersections([A, (A + B) / 2, B], [C, (C + D) / 2, D], 4.0 ** -E * S * S * 2 ** (maxits - 1.5), tol=4.0 ** -E * S if merge == 'same' else 2.0 ** -60,
+                                    tol_deC=4.0 ** -E * S * S)
             plain_ok = True
         except Exception as e2:      # noqa
             plain_ok = 'maximum' in str(e2)
